@@ -13,7 +13,12 @@ package main
 //           access log, compiled middleware stack (by reflection), ValidDirectives("http")
 //   order : behavioural probes of the documented nesting of one pair of directives, lines in random order,
 //           optionally after earlier loads in the same process
-//   dirs  : ValidDirectives("http") after a history of loads
+//   dirs  : ValidDirectives("http"), the registered http plugins and the compiled stack of a fixed site after
+//           a history of http loads (valid / validate-only / reload; refused for a misspelt directive, a
+//           syntax error, a failing setup)
+//   hist  : a history of loads of the probe server type in one process over one shared directive slice
+//   text  : a configuration printed by C10's printer in two line orders through casketfile.Parse: the
+//           Dispenser view of every directive group  vs  C10's parser model and C09's grouping of the AST
 
 import (
 	"bytes"
@@ -25,11 +30,14 @@ import (
 	"go/ast"
 	"io"
 	"net"
+	"log"
 	"net/http"
+	"net/http/fcgi"
 	"net/http/httptest"
 	"os"
 	"path/filepath"
 	"reflect"
+	"regexp"
 	"runtime"
 	"sort"
 	"strings"
@@ -69,7 +77,35 @@ type c09In struct {
 	Perm []int `json:"perm,omitempty"`
 	// order
 	Probe int      `json:"probe,omitempty"`
-	Pre   []string `json:"pre,omitempty"` // server-block bodies loaded (validate only) before the case
+	Pre   []string `json:"pre,omitempty"` // server-block bodies loaded before the case; prefix "S:" start+stop, "R:" reload of a running site, "V:" or none: validate only
+	// hist
+	Steps []c09Step `json:"steps,omitempty"`
+	// text
+	TPre  []c09ABlock `json:"tpre,omitempty"`
+	TPost []c09ABlock `json:"tpost,omitempty"`
+	TMain *c09ABlock  `json:"tmain,omitempty"`
+}
+
+// text cases: tokens as written (text, followed by a line break), lines, blocks
+type c09LT struct {
+	T  string `json:"t"`
+	NL bool   `json:"nl,omitempty"`
+}
+type c09ALine struct {
+	H c09LT   `json:"h"`
+	R []c09LT `json:"r,omitempty"`
+}
+type c09ABlock struct {
+	Key   c09LT      `json:"key"`
+	Keys  []c09LT    `json:"keys,omitempty"`
+	Lines []c09ALine `json:"lines"`
+}
+
+type c09Step struct {
+	K      int        `json:"k"`   // 0 casket.Start, 1 ValidateAndExecuteDirectives, 2 Instance.Restart of the running instance
+	Syn    bool       `json:"syn"` // false: the text ends with an unclosed server block
+	Blocks []c09Block `json:"blocks"`
+	CbFail string     `json:"cbfail,omitempty"`
 }
 
 
@@ -98,6 +134,8 @@ func c09Vocab() []string {
 	add(c09StdNames...)
 	add(c09Words...)
 	add(c09ProbeNames...)
+	add(c09TextWords...)
+	add("a.example", "a.example,", "b.example", ":80", "z.example", "{$C09D}", "{%C09D%}", "log", "imported")
 	add("alpha", "beta", "gamma", "Delta", "e.f", "x-y", "imported", "x", "y", "/p", "two words", "z", "sub", "v", "FAIL", "pz", "127.0.0.1:0",
 		"q r", "m\nn", "bogus", "/x", "a", "<no context>", "")
 	for i := 0; i < 12; i++ {
@@ -105,6 +143,9 @@ func c09Vocab() []string {
 	}
 	for _, p := range c09Pool {
 		add(p.Text)
+	}
+	for _, l := range c09FixedSite {
+		add(l.T...)
 	}
 	c09VocabList = v
 	c09VocabIdx = map[string]int{}
@@ -320,6 +361,10 @@ const c09Type = "verifc09"
 func c09Register() {
 	c09Once.Do(func() {
 		casket.Quiet = true
+		log.SetOutput(io.Discard)
+		for _, kv := range c09Env {
+			os.Setenv(kv[0], kv[1])
+		}
 		casket.RegisterServerType(c09Type, casket.ServerType{
 			Directives: func() []string { return c09ProbeDirs },
 			NewContext: func(inst *casket.Instance) casket.Context { return c09Ctx{} },
@@ -438,11 +483,16 @@ const (
 	c09E401   = "E401TOKq4"
 	c09E502   = "E502TOKq5"
 	c09E404   = "E404TOKq6"
+	c09E500   = "E500TOKq7"
+	c09E501   = "E501TOKq8"
+	c09E405   = "E405TOKq9"
+	c09FCGITOK = "FCGITOKq0"
 )
 
 var (
 	c09Fix     string
 	c09Backend *httptest.Server
+	c09FCGI    string
 )
 
 func c09Fixture() string {
@@ -485,6 +535,10 @@ func c09Fixture() string {
 		"hidden/x.txt":   "hidden x",
 		"tpl/t.html":     "<html>" + c09TPL + " {{.Method}} {{.URI}}</html>",
 		"tpl/big.html":   "<html>{{.Method}} " + big + "</html>",
+		"tpl/bad.html":   "<html>{{.Nope</html>",
+		"e500.html":      c09E500,
+		"e501.html":      c09E501,
+		"e405.html":      c09E405,
 		"e401.html":      c09E401,
 		"e404.html":      c09E404,
 		"e502.html":      c09E502,
@@ -503,6 +557,18 @@ func c09Fixture() string {
 		w.Header().Set("Content-Type", "text/plain; charset=utf-8")
 		fmt.Fprintf(w, "backend %s %s len=%d", r.Method, r.URL.Path, len(b))
 	}))
+	// a live FastCGI responder (net/http/fcgi) so that the fastcgi directive has real content to serve
+	if ln, err := net.Listen("tcp", "127.0.0.1:0"); err == nil {
+		c09FCGI = ln.Addr().String()
+		go fcgi.Serve(ln, http.HandlerFunc(func(w http.ResponseWriter, r *http.Request) {
+			w.Header().Set("Content-Type", "text/plain; charset=utf-8")
+			if strings.Contains(r.URL.Path, "big") {
+				io.WriteString(w, strings.Repeat("fastcgi big body ", 120))
+				return
+			}
+			io.WriteString(w, c09FCGITOK+" "+r.Method)
+		}))
+	}
 	return root
 }
 
@@ -512,6 +578,7 @@ func c09Subst(s string) string {
 	s = strings.ReplaceAll(s, "LOGFILE", filepath.Join(root, "access.log"))
 	s = strings.ReplaceAll(s, "BACKEND", c09Backend.URL)
 	s = strings.ReplaceAll(s, "DEAD", "127.0.0.1:1")
+	s = strings.ReplaceAll(s, "FCGI", c09FCGI)
 	return s
 }
 
@@ -704,6 +771,9 @@ func c09Observe(body string) c09SiteObs {
 
 func c09VD() []string { return append([]string(nil), casket.ValidDirectives("http")...) }
 
+// the list as it was when the harness started (before any load of this process)
+var c09VD0 = c09VD()
+
 func c09RunSite(in *c09In) Result {
 	id := make([]int, len(in.Lines))
 	for i := range id {
@@ -773,13 +843,122 @@ var c09Probes = []c09Probe{
 	{22, []string{"root FIX", "gzip", "templates /tpl"}, c09Req{Method: "GET", Target: "/tpl/big.html", AE: "gzip"}, c09Gz},
 }
 
-func c09Preload(pre []string) {
+// ---- generated probes: every pair the property names (ids as in C09_Model.gen_probe_table)
+type c09Content struct {
+	Name          string
+	Lines         []string // site lines that serve Target
+	Prefix        string   // path prefix the gates / header are configured on
+	Target        string
+	Tok           string // in the body when the content handler served the request
+	Big           string // a compressible target
+	FailLines     []string
+	FailReq       c09Req
+	FailStatus    int
+	FailPage, Tok2 string
+}
+
+var c09Contents = []c09Content{
+	{"proxy", []string{"proxy /api BACKEND"}, "/api", "/api/x", "backend", "/api/big.txt", []string{"proxy /dead DEAD"}, c09Req{Method: "GET", Target: "/dead/x"}, 502, "e502.html", c09E502},
+	{"fastcgi", []string{"root FIX", "fastcgi /php FCGI"}, "/php", "/php/x.php", c09FCGITOK, "/php/big.php", []string{"root FIX", "fastcgi /php DEAD"}, c09Req{Method: "GET", Target: "/php/x.php"}, 502, "e502.html", c09E502},
+	{"browse", []string{"root FIX", "browse /dir"}, "/dir", "/dir/", "f1.txt", "/dir/", []string{"root FIX", "browse /dir"}, c09Req{Method: "OPTIONS", Target: "/dir/"}, 501, "e501.html", c09E501},
+	{"markdown", []string{"root FIX", "markdown /docs"}, "/docs", "/docs/readme.md", c09MD, "/docs/readme.md", []string{"root FIX", "markdown /docs"}, c09Req{Method: "POST", Target: "/docs/readme.md"}, 405, "e405.html", c09E405},
+	{"templates", []string{"root FIX", "templates /tpl"}, "/tpl", "/tpl/t.html", c09TPL, "/tpl/big.html", []string{"root FIX", "templates /tpl"}, c09Req{Method: "GET", Target: "/tpl/bad.html"}, 500, "e500.html", c09E500},
+	{"static", []string{"root FIX"}, "/a.txt", "/a.txt", "file a", "/big.txt", []string{"root FIX"}, c09Req{Method: "GET", Target: "/nope"}, 404, "e404.html", c09E404},
+}
+
+var c09ReqIDRe = regexp.MustCompile(`id=[0-9a-f]{8}-[0-9a-f]{4}-`)
+
+func c09GenProbes() []c09Probe {
+	var out []c09Probe
+	join := func(a []string, b ...string) []string { return append(append([]string(nil), a...), b...) }
+	for ci, c := range c09Contents {
+		gates := []string{"basicauth " + c.Prefix + " u p", "redir " + c.Target + " /new 301", "status 410 " + c.Prefix, "internal " + c.Prefix}
+		for gi, g := range gates {
+			out = append(out, c09Probe{100 + 6*gi + ci, join(c.Lines, g), c09Req{Method: "GET", Target: c.Target}, c09Has(c.Tok)})
+		}
+		out = append(out,
+			c09Probe{200 + ci, join(c.Lines, `log / LOGFILE "{uri} {status}"`), c09Req{Method: "GET", Target: c.Target}, c09LogHas(c.Target + " 200")},
+			c09Probe{206 + ci, join(c.Lines, "gzip {\n ext *\n}"), c09Req{Method: "GET", Target: c.Big, AE: "gzip"}, c09Gz},
+			c09Probe{212 + ci, join(c.Lines, "header "+c.Prefix+" X-Hdr yes"), c09Req{Method: "GET", Target: c.Target}, c09HdrHas("X-Hdr")},
+			c09Probe{218 + ci, join(c.FailLines, fmt.Sprintf("errors {\n %d FIX/%s\n}", c.FailStatus, c.FailPage)), c.FailReq, c09Has(c.Tok2)})
+	}
+	out = append(out,
+		c09Probe{300, []string{"root FIX", "tryfiles {path} /int/h.txt", "internal /int"}, c09Req{Method: "GET", Target: "/nonexistent"}, c09Has("internal only")},
+		c09Probe{301, []string{"root FIX", "rewrite /pub/x /int/h.txt", "internal /int"}, c09Req{Method: "GET", Target: "/pub/x"}, c09Has("internal only")},
+		c09Probe{302, []string{"root FIX", "ext .txt", "internal /int/h.txt"}, c09Req{Method: "GET", Target: "/int/h"}, c09Has("internal only")},
+		c09Probe{400, []string{"root FIX", "request_id", `log / LOGFILE "{uri} id={request_id}"`}, c09Req{Method: "GET", Target: "/a.txt"},
+			func(_ rawResp, _, log string) bool { return c09ReqIDRe.MatchString(log) }})
+	sort.Slice(out, func(a, b int) bool { return out[a].ID < out[b].ID })
+	return out
+}
+
+func init() { c09Probes = append(c09Probes, c09GenProbes()...) }
+
+// c09LoadClass: 0 loaded, 1 unknown directive, 2 other parse error, 3 a setup function / callback failed
+func c09LoadClass(err error) int {
+	if err == nil {
+		return 0
+	}
+	m := err.Error()
+	switch {
+	case strings.Contains(m, "Unknown directive"):
+		return 1
+	case strings.Contains(m, "Syntax error") || strings.Contains(m, "Unexpected EOF") || strings.Contains(m, "Unexpected '}'") || strings.Contains(m, "Unexpected token"):
+		return 2
+	}
+	return 3
+}
+
+// c09Preload runs a history of http loads in this process; it returns the outcome class of each.
+func c09Preload(pre []string) []int {
 	c09Register()
 	c09Fixture()
+	var classes []int
 	for _, body := range pre {
+		kind := "V"
+		if len(body) > 2 && body[1] == ':' && strings.ContainsRune("VSR", rune(body[0])) {
+			kind, body = body[:1], body[2:]
+		}
 		text := "127.0.0.1:0 {\n" + c09Subst(body) + "\n}\n"
-		casket.ValidateAndExecuteDirectives(casket.CasketfileInput{Contents: []byte(text), Filepath: "Casketfile", ServerTypeName: "http"}, nil, true)
+		input := casket.CasketfileInput{Contents: []byte(text), Filepath: "Casketfile", ServerTypeName: "http"}
+		var err error
+		switch kind {
+		case "V":
+			err = casket.ValidateAndExecuteDirectives(input, nil, true)
+		case "S":
+			var inst *casket.Instance
+			if inst, err = casket.Start(input); err == nil {
+				inst.ShutdownCallbacks()
+				inst.Stop()
+			}
+		case "R": // a running site is asked to reload this text; a refused reload leaves it running
+			base := casket.CasketfileInput{Contents: []byte("127.0.0.1:0 {\n" + c09Subst("root FIX") + "\n}\n"), Filepath: "Casketfile", ServerTypeName: "http"}
+			inst, e0 := casket.Start(base)
+			if e0 != nil {
+				err = e0
+				break
+			}
+			// (the generator only asks for reloads that are refused: a successful in-process reload of
+			// a listening http server can block in Server.Stop of the replaced instance — guarded anyway)
+			done := make(chan struct{})
+			var ni *casket.Instance
+			var rerr error
+			go func() { ni, rerr = inst.Restart(input); close(done) }()
+			select {
+			case <-done:
+				err = rerr
+				if err == nil && ni != nil {
+					inst = ni
+				}
+				inst.ShutdownCallbacks()
+				inst.Stop()
+			case <-time.After(5 * time.Second):
+				err = fmt.Errorf("reload did not return within 5s")
+			}
+		}
+		classes = append(classes, c09LoadClass(err))
 	}
+	return classes
 }
 
 func c09RunOrder(in *c09In) Result {
@@ -824,11 +1003,270 @@ func c09min(a, b int) int {
 	return b
 }
 
+// the fixed probe site whose compiled middleware order is read after every history (written in
+// roughly reverse documented order)
+var c09FixedSite = []c09Line{
+	{D: "browse", T: []string{"browse /dir"}}, {D: "markdown", T: []string{"markdown /docs"}}, {D: "websocket", T: []string{"websocket /ws cat"}},
+	{D: "fastcgi", T: []string{"fastcgi /php DEAD"}}, {D: "proxy", T: []string{"proxy /api BACKEND"}}, {D: "templates", T: []string{"templates /tpl"}},
+	{D: "push", T: []string{"push /a.txt /b.txt"}}, {D: "expvar", T: []string{"expvar /stats"}}, {D: "pprof", T: []string{"pprof"}},
+	{D: "internal", T: []string{"internal /int"}}, {D: "mime", T: []string{"mime .txt text/x-custom"}}, {D: "status", T: []string{"status 410 /hidden"}},
+	{D: "redir", T: []string{"redir /old /a.txt 301"}}, {D: "basicauth", T: []string{"basicauth /secret u p"}},
+	{D: "errors", T: []string{"errors {\n 404 FIX/e404.html\n}"}}, {D: "header", T: []string{"header / X-A 1"}}, {D: "gzip", T: []string{"gzip"}},
+	{D: "ext", T: []string{"ext .txt .html"}}, {D: "rewrite", T: []string{"rewrite /r1 /a.txt"}}, {D: "tryfiles", T: []string{"tryfiles {path} {path}.txt /fallback.txt"}},
+	{D: "log", T: []string{"log / LOGFILE \"{method} {uri} {status}\""}}, {D: "request_id", T: []string{"request_id"}},
+	{D: "limits", T: []string{"limits {\n body /api 10\n}"}}, {D: "root", T: []string{"root FIX"}},
+}
+
+// http directive plugins registered in this process (the generic ones — tls, on — count for every
+// server type)
+func c09Registered() []string {
+	var out []string
+	for _, n := range casket.ListPlugins()["others"] {
+		switch {
+		case strings.HasPrefix(n, "http."):
+			out = append(out, strings.TrimPrefix(n, "http."))
+		case !strings.Contains(n, "."):
+			out = append(out, n)
+		}
+	}
+	sort.Strings(out)
+	return out
+}
+
 func c09RunDirs(in *c09In) Result {
-	c09Preload(in.Pre)
+	classes := c09Preload(in.Pre)
 	vd := c09VD()
-	return Result{Term: cApp("CDirs", c09SList(vd)), Obs: strings.Join(vd, " "), Sig: "dirs", Nontrivial: len(in.Pre) > 0,
-		Key: strings.Join(in.Pre, "|"), Class: "dirs"}
+	reg := c09Registered()
+	id := make([]int, len(c09FixedSite))
+	for i := range id {
+		id[i] = i
+	}
+	st, err := c09Start(c09BodyOf(c09FixedSite, id))
+	stack := []string{}
+	errs := ""
+	if err == nil {
+		stack = c09Stack()
+		st.stop()
+	} else {
+		errs = err.Error()
+	}
+	sig := "dirs"
+	if strings.Join(vd, " ") != strings.Join(c09VD0, " ") {
+		sig = "dirs:directive-list-changed"
+	}
+	return Result{Term: cApp("CDirs", c09SList(vd), c09SList(reg), c09LinesTerm(c09FixedSite), cBool(err == nil), c09SList(stack)),
+		Obs: map[string]interface{}{"valid_directives": strings.Join(vd, " "), "registered": strings.Join(reg, " "), "stack": strings.Join(stack, " "), "err": errs, "history_classes": classes},
+		Sig: sig, Nontrivial: len(in.Pre) > 0, Key: strings.Join(in.Pre, "|"), Class: fmt.Sprintf("dirs:hist=%d", c09min(len(in.Pre), 3))}
+}
+
+// ---- histories of loads of the probe server type in one process
+func c09RunHist(in *c09In) Result {
+	c09Register()
+	c09Backing = append(c09Backing[:0], in.Dirs...)
+	c09ProbeDirs = c09Backing
+	var cur *casket.Instance
+	var steps, human []string
+	changed := false
+	for _, stp := range in.Steps {
+		c09Trace = nil
+		c09CbFail = stp.CbFail
+		src := c09RenderBlocks(stp.Blocks)
+		if !stp.Syn {
+			src += "k99 {\n"
+		}
+		input := casket.CasketfileInput{Contents: []byte(src), Filepath: "Casketfile", ServerTypeName: c09Type}
+		var err error
+		switch {
+		case stp.K == 1:
+			err = casket.ValidateAndExecuteDirectives(input, nil, true)
+		case stp.K == 2 && cur != nil:
+			var ni *casket.Instance
+			ni, err = cur.Restart(input)
+			if err == nil && ni != nil {
+				cur = ni
+			}
+		default:
+			var ni *casket.Instance
+			ni, err = casket.Start(input)
+			if err == nil && ni != nil {
+				if cur != nil {
+					cur.Stop()
+				}
+				cur = ni
+			}
+		}
+		cls := c09LoadClass(err)
+		after := append([]string(nil), c09ProbeDirs...)
+		if strings.Join(after, " ") != strings.Join(in.Dirs, " ") {
+			changed = true
+		}
+		var evs []string
+		for _, e := range c09Trace {
+			if e.Setup {
+				evs = append(evs, cApp("ESetup", c09S(e.D), cNat(e.I), cNat(e.J), c09S(e.Key), c09SList(e.Toks), cNat(e.Seen), cBool(e.Once)))
+			} else {
+				evs = append(evs, cApp("ECallback", c09S(e.D)))
+			}
+		}
+		var bts []string
+		for _, b := range stp.Blocks {
+			bts = append(bts, cPair(c09SList(b.Keys), c09LinesTerm(b.Lines)))
+		}
+		cbf := "None"
+		if stp.CbFail != "" {
+			cbf = "(Some " + c09S(stp.CbFail) + ")"
+		}
+		steps = append(steps, fmt.Sprintf("(%s, %s, %s, %s, (%s, %s), %s)", cN(uint64(stp.K)), cBool(stp.Syn), cList(bts), cbf, cN(uint64(cls)), cList(evs), c09SList(after)))
+		es := ""
+		if err != nil {
+			es = err.Error()
+		}
+		human = append(human, fmt.Sprintf("k=%d class=%d calls=%d dirs_after=%s err=%s", stp.K, cls, len(c09Trace), strings.Join(after, " "), es))
+	}
+	if cur != nil {
+		cur.Stop()
+	}
+	sig := "hist"
+	if changed {
+		sig = "hist:directive-list-changed"
+	}
+	return Result{Term: cApp("CHist", c09SList(in.Dirs), c09SList(c09CbSet()), cList(steps)), Obs: human, Sig: sig,
+		Nontrivial: len(in.Steps) >= 2, Class: fmt.Sprintf("hist:steps=%d", len(in.Steps))}
+}
+
+// ---- text cases: a block printed by C10's printer (every token quoted; a space or a line break
+// after it) in two line orders, through casketfile.Parse; observed: the Dispenser view of each group
+var c09Env = [][2]string{{"C09D", "header"}, {"C09V", "two\nlines"}}
+
+func c09PrintToks(ts []c09LT) string {
+	var sb strings.Builder
+	for _, t := range ts {
+		sb.WriteString(`"` + strings.ReplaceAll(t.T, `"`, `\"`) + `"`)
+		if t.NL {
+			sb.WriteString("\n")
+		} else {
+			sb.WriteString(" ")
+		}
+	}
+	return sb.String()
+}
+func c09FlatBlock(b c09ABlock) []c09LT {
+	out := append([]c09LT{b.Key}, b.Keys...)
+	out = append(out, c09LT{"{", true})
+	for _, l := range b.Lines {
+		out = append(out, l.H)
+		out = append(out, l.R...)
+	}
+	return append(out, c09LT{"}", true})
+}
+func c09LTTerm(t c09LT) string { return cPair(c09S(t.T), cBool(t.NL)) }
+func c09LTList(ts []c09LT) string {
+	it := make([]string, len(ts))
+	for i, t := range ts {
+		it[i] = c09LTTerm(t)
+	}
+	return cList(it)
+}
+func c09ALinesTerm(ls []c09ALine) string {
+	it := make([]string, len(ls))
+	for i, l := range ls {
+		it[i] = cPair(c09LTTerm(l.H), c09LTList(l.R))
+	}
+	return cList(it)
+}
+func c09ABlocksTerm(bs []c09ABlock) string {
+	it := make([]string, len(bs))
+	for i, b := range bs {
+		it[i] = "(" + c09LTTerm(b.Key) + ", " + c09LTList(b.Keys) + ", " + c09ALinesTerm(b.Lines) + ")"
+	}
+	return cList(it)
+}
+
+func c09TextObserve(text string, nblocks, idx int) (string, map[string][]string, string) {
+	blocks, err := casketfile.Parse("Casketfile", strings.NewReader(text), nil)
+	if err != nil {
+		return "None", nil, err.Error()
+	}
+	if len(blocks) != nblocks {
+		return "None", nil, fmt.Sprintf("%d blocks, expected %d", len(blocks), nblocks)
+	}
+	b := blocks[idx]
+	var dirs []string
+	for d := range b.Tokens {
+		dirs = append(dirs, d)
+	}
+	sort.Strings(dirs)
+	human := map[string][]string{}
+	var groups []string
+	for _, d := range dirs {
+		toks := b.Tokens[d]
+		dl := casketfile.NewDispenserTokens("", toks)
+		da := casketfile.NewDispenserTokens("", toks)
+		dl.Next()
+		da.Next()
+		var it []string
+		for k, t := range toks {
+			nl, sa := false, false
+			if k > 0 {
+				if nl = dl.NextLine(); !nl {
+					dl.Next()
+				}
+				if sa = da.NextArg(); !sa {
+					da.Next()
+				}
+			}
+			it = append(it, cPair(c09S(t.Text), cPair(cBool(nl), cBool(sa))))
+			human[d] = append(human[d], fmt.Sprintf("%q nl=%v arg=%v", t.Text, nl, sa))
+		}
+		groups = append(groups, cPair(c09S(d), cList(it)))
+	}
+	return "(Some " + cList(groups) + ")", human, ""
+}
+
+func c09RunText(in *c09In) Result {
+	c09Register()
+	if in.TMain == nil {
+		return Result{Term: "(COrder 0%N (0%N, false) [])", Obs: "no block", Class: "text:bad", Sig: "text:bad", Direct: "text case without a block"}
+	}
+	build := func(lines []c09ALine) string {
+		var ts []c09LT
+		for _, b := range in.TPre {
+			ts = append(ts, c09FlatBlock(b)...)
+		}
+		ts = append(ts, c09FlatBlock(c09ABlock{in.TMain.Key, in.TMain.Keys, lines})...)
+		for _, b := range in.TPost {
+			ts = append(ts, c09FlatBlock(b)...)
+		}
+		return c09PrintToks(ts)
+	}
+	var permuted []c09ALine
+	for _, i := range in.Perm {
+		if i >= 0 && i < len(in.TMain.Lines) {
+			permuted = append(permuted, in.TMain.Lines[i])
+		}
+	}
+	tA, tB := build(in.TMain.Lines), build(permuted)
+	n := len(in.TPre) + 1 + len(in.TPost)
+	oA, hA, eA := c09TextObserve(tA, n, len(in.TPre))
+	oB, hB, eB := c09TextObserve(tB, n, len(in.TPre))
+	var env []string
+	for _, kv := range c09Env {
+		env = append(env, cPair(cStr(kv[0]), cStr(kv[1])))
+	}
+	term := cApp("CText", cList(env), c09ABlocksTerm(in.TPre), c09ABlocksTerm(in.TPost), c09LTTerm(in.TMain.Key), c09LTList(in.TMain.Keys),
+		c09ALinesTerm(in.TMain.Lines), cNatList(in.Perm), cStr(tA), cStr(tB), oA, oB)
+	names := map[string]int{}
+	for _, l := range in.TMain.Lines {
+		names[os.Expand(strings.NewReplacer("{$", "${").Replace(l.H.T), os.Getenv)]++
+	}
+	rep := false
+	for _, c := range names {
+		if c >= 2 {
+			rep = true
+		}
+	}
+	return Result{Term: term, Obs: map[string]interface{}{"textA": tA, "textB": tB, "groupsA": hA, "groupsB": hB, "errA": eA, "errB": eB},
+		Sig: "text", Nontrivial: rep && len(names) >= 2, Class: fmt.Sprintf("text:lines=%d:repeated=%v", len(in.TMain.Lines), rep)}
 }
 
 func c09Run(in0 interface{}) Result {
@@ -844,6 +1282,10 @@ func c09Run(in0 interface{}) Result {
 		return c09RunOrder(in)
 	case "dirs":
 		return c09RunDirs(in)
+	case "hist":
+		return c09RunHist(in)
+	case "text":
+		return c09RunText(in)
 	}
 	panic("bad kind " + in.Kind)
 }
@@ -1180,18 +1622,177 @@ func c09GenSite(r *Rand, out *[]interface{}) {
 	*out = append(*out, &c09In{Kind: "site", Lines: ls, Perm: perm})
 }
 
+var c09BadUnknown = []string{"rewrit /a /b", "gzipp", "basicauht /x u p", "heade / X-A 1", "prox /api BACKEND", "zzz", "Root FIX"}
+var c09BadSyntax = []string{"gzip {", "header / {\n X-A 1", "root FIX\n}\n}"}
+var c09BadSetup = []string{"gzip {\n level 99\n}", "basicauth /x", "status abc /x", "redir", "errors {\n 404\n}"}
+
+// a history of http loads: valid configurations, validate-only calls, started and stopped sites,
+// reloads of a running site — and loads refused for an unknown (misspelt) directive, a syntax error
+// or a failing setup function
 func c09PreBodies(r *Rand) []string {
 	var pre []string
-	for k := r.Range(1, 2); k > 0; k-- {
+	for k := r.Range(1, 4); k > 0; k-- {
 		pr := c09Probes[r.Intn(len(c09Probes))]
-		// a single late directive, or a full probe config
-		if r.Bool() {
-			pre = append(pre, pr.Lines[len(pr.Lines)-1])
-		} else {
-			pre = append(pre, strings.Join(pr.Lines, "\n"))
+		var body string
+		bad := 0
+		switch x := r.Intn(10); {
+		case x < 2: // a single late directive
+			body = pr.Lines[len(pr.Lines)-1]
+		case x < 5: // a full probe config
+			body = strings.Join(pr.Lines, "\n")
+		case x < 8: // misspelt directive behind / in front of valid lines
+			bad = 1
+			if r.Bool() {
+				body = strings.Join(pr.Lines, "\n") + "\n" + r.Pick(c09BadUnknown)
+			} else {
+				body = r.Pick(c09BadUnknown) + "\n" + strings.Join(pr.Lines, "\n")
+			}
+		case x < 9:
+			bad = 2
+			body = pr.Lines[0] + "\n" + r.Pick(c09BadSyntax)
+		default:
+			body = pr.Lines[0] + "\n" + r.Pick(c09BadSetup)
 		}
+		kind := r.Pick([]string{"V:", "S:", "R:", ""})
+		if kind == "R:" && bad == 0 { // reloads of a running site: refused ones only (see c09Preload)
+			kind = "S:"
+		}
+		pre = append(pre, kind+body)
 	}
 	return pre
+}
+
+func c09GenBlocks(r *Rand, dirs []string) []c09Block {
+	var blocks []c09Block
+	keyN := 0
+	for b := r.Range(1, 2); b > 0; b-- {
+		var blk c09Block
+		for k := r.Range(1, 2); k > 0; k-- {
+			blk.Keys = append(blk.Keys, fmt.Sprintf("k%d", keyN))
+			keyN++
+		}
+		for k := r.Range(0, 4); k > 0; k-- {
+			d := dirs[r.Intn(len(dirs))]
+			if r.Chance(6) {
+				d = "pz" // misspelt / unknown: the load is refused by the parser
+			}
+			l := c09Line{D: d, T: []string{d}}
+			for a := r.Intn(3); a > 0; a-- {
+				l.T = append(l.T, r.Pick([]string{"x", "y", "/p", "1", "two words", "z"}))
+			}
+			if r.Chance(4) {
+				l.T = append(l.T, "FAIL")
+			}
+			blk.Lines = append(blk.Lines, l)
+		}
+		blocks = append(blocks, blk)
+	}
+	return blocks
+}
+
+var c09TextWords = []string{"/", "/a", "X-A", "1", "{path}", "a b", "x\ny", "", `say "hi"`, "import", "-Server", "é", "k=v", "{$C09V}", "{%C09D%}", "a{$C09E}b", "#x", "two  spaces"}
+
+func c09GenALine(r *Rand, name string) c09ALine {
+	var ts []c09LT
+	arg := func() string { return r.Pick(c09TextWords) }
+	for k := r.Intn(4); k > 0; k-- {
+		ts = append(ts, c09LT{arg(), false})
+	}
+	var block func(depth int)
+	block = func(depth int) {
+		ts = append(ts, c09LT{"{", true})
+		for k := r.Intn(4); k > 0; k-- {
+			w := arg()
+			if w == "import" {
+				w = "imported"
+			}
+			ts = append(ts, c09LT{w, false})
+			for a := r.Intn(3); a > 0; a-- {
+				ts = append(ts, c09LT{arg(), false})
+			}
+			if depth < 2 && r.Chance(15) {
+				block(depth + 1)
+			} else {
+				ts[len(ts)-1].NL = true
+			}
+		}
+		ts = append(ts, c09LT{"}", true})
+	}
+	l := c09ALine{H: c09LT{name, false}}
+	if r.Chance(35) {
+		if len(ts) > 0 && r.Chance(10) { // the brace opens on the next physical line
+			ts[len(ts)-1].NL = true
+		}
+		block(0)
+	}
+	if len(ts) == 0 {
+		l.H.NL = true
+	} else {
+		ts[len(ts)-1].NL = true
+	}
+	l.R = ts
+	return l
+}
+
+func c09GenText(r *Rand, out *[]interface{}) {
+	pool := []string{"header", "root", "gzip", "{$C09D}", "x-y", "log", "{%C09D%}"}
+	var names []string
+	for k := r.Range(1, 4); k > 0; k-- {
+		names = append(names, r.Pick(pool))
+	}
+	main := &c09ABlock{Key: c09LT{"a.example", false}}
+	if r.Chance(30) {
+		main.Key = c09LT{"a.example,", r.Bool()}
+		main.Keys = []c09LT{{"b.example", false}}
+	}
+	var ds []string
+	for k := r.Range(1, 7); k > 0; k-- {
+		n := r.Pick(names)
+		main.Lines = append(main.Lines, c09GenALine(r, n))
+		ds = append(ds, os.Expand(strings.NewReplacer("{$", "${", "{%", "${", "%}", "}").Replace(n), func(k string) string {
+			for _, kv := range c09Env {
+				if kv[0] == k {
+					return kv[1]
+				}
+			}
+			return ""
+		}))
+	}
+	in := &c09In{Kind: "text", TMain: main}
+	small := func(key string) c09ABlock {
+		return c09ABlock{Key: c09LT{key, false}, Lines: []c09ALine{c09GenALine(r, "gzip"), c09GenALine(r, "root")}}
+	}
+	if r.Chance(40) {
+		in.TPre = []c09ABlock{small(":80")}
+	}
+	if r.Chance(40) {
+		in.TPost = []c09ABlock{small("z.example")}
+	}
+	if r.Chance(70) {
+		in.Perm = c09AdmissiblePerm(r, ds)
+	} else {
+		in.Perm = r.Perm(len(ds))
+	}
+	*out = append(*out, in)
+}
+
+func c09GenHist(r *Rand, out *[]interface{}) {
+	c09Register()
+	nd := r.Range(2, 8)
+	perm := r.Perm(len(c09ProbeNames))
+	var dirs []string
+	for i := 0; i < nd; i++ {
+		dirs = append(dirs, c09ProbeNames[perm[i]])
+	}
+	in := &c09In{Kind: "hist", Dirs: dirs}
+	for k := r.Range(2, 6); k > 0; k-- {
+		st := c09Step{K: r.Intn(3), Syn: !r.Chance(8), Blocks: c09GenBlocks(r, dirs)}
+		if r.Chance(6) {
+			st.CbFail = dirs[r.Intn(len(dirs))]
+		}
+		in.Steps = append(in.Steps, st)
+	}
+	*out = append(*out, in)
 }
 
 func c09GenOrder(r *Rand, out *[]interface{}, all bool) {
@@ -1210,9 +1811,9 @@ func c09GenOrder(r *Rand, out *[]interface{}, all bool) {
 func c09Gen(r *Rand, tier string) []interface{} {
 	c09Register()
 	var out []interface{}
-	nParse, nMal, nExec, nSite, nOrderRounds, nDirs := 500, 500, 900, 110, 4, 12
+	nParse, nMal, nExec, nSite, nOrderRounds, nDirs, nHist, nText := 500, 500, 900, 110, 2, 40, 250, 300
 	if tier == "thorough" {
-		nParse, nMal, nExec, nSite, nOrderRounds, nDirs = 6000, 6000, 10000, 1200, 40, 120
+		nParse, nMal, nExec, nSite, nOrderRounds, nDirs, nHist, nText = 6000, 6000, 10000, 1200, 20, 400, 2500, 3000
 	}
 	out = append(out, &c09In{Kind: "dirs"})
 	// every probe once in written-canonical and once in reversed file order
@@ -1243,6 +1844,12 @@ func c09Gen(r *Rand, tier string) []interface{} {
 	for i := 0; i < nDirs; i++ {
 		out = append(out, &c09In{Kind: "dirs", Pre: c09PreBodies(r)})
 	}
+	for i := 0; i < nHist; i++ {
+		c09GenHist(r, &out)
+	}
+	for i := 0; i < nText; i++ {
+		c09GenText(r, &out)
+	}
 	out = append(out, &c09In{Kind: "dirs"})
 	return out
 }
@@ -1250,7 +1857,7 @@ func c09Gen(r *Rand, tier string) []interface{} {
 func init() {
 	register(&Property{
 		ID: "C09", Imports: "V.Lib V.Gen_C09 V.C09_Model", Judge: "judge", Shard: 150,
-		Rule: "parse: generated server blocks (1-8 lines over 1-5 directive names, brace blocks, quoted/multi-line tokens, comments) through casketfile.Parse in written, admissibly permuted and arbitrarily permuted line order + a malformed token stream; exec: casket.Start/ValidateAndExecuteDirectives on a probe server type with a per-case directive list (1-8 names), 1-3 blocks x 1-3 keys, failing setups/callbacks; site: real http sites from a pool of 45 directive lines in two admissible line orders, 32-request battery + access log + compiled middleware stack; order: 22 behavioural probes of documented directive pairs with lines in random order, optionally after earlier loads; dirs: ValidDirectives after load histories. non-trivial = parse: a repeated directive interleaved with another one or a parse error; exec: >= 2 calls; site: starts and uses >= 3 directives; order: always; dirs: after >= 1 load",
+		Rule: "parse: generated server blocks (1-8 lines over 1-5 directive names, brace blocks, quoted/multi-line tokens, comments) through casketfile.Parse in written, admissibly permuted and arbitrarily permuted line order + a malformed token stream; text: C10-printed configurations (every token quoted; 1-7 lines over 1-4 names incl. names written as environment references, sub-blocks to depth 3, multi-line / empty / env-valued tokens, optional blocks in front and behind, 1-2 keys) in two line orders (70% admissible) through casketfile.Parse — Dispenser view (text, NextLine, NextArg) of every group vs the C10 parser model on the model-printed text and vs C09 grouping of the AST; exec: casket.Start/ValidateAndExecuteDirectives on a probe server type with a per-case directive list (1-8 names), 1-3 blocks x 1-3 keys, failing setups/callbacks; hist: 2-6 loads (Start / validate-only / Instance.Restart) of the probe server type in one process over one shared directive slice, with unknown directives, syntax errors, failing setups and callbacks — outcome class, trace and the slice after every load vs the state-threaded model and vs the fresh-process oracle; site: real http sites from a pool of 45 directive lines in two admissible line orders, 32-request battery + access log + compiled middleware stack (= documented sequence); order: 74 behavioural probes (22 hand-written + every pair the property names: 4 gates x 6 content handlers incl. the static file server and a live FastCGI responder, 4 wrappers x 6, 3 rewriters x internal, request_id x log) with lines in written, reversed and random order, optionally after a history of http loads; dirs: ValidDirectives, the registered http directive plugins and the compiled stack of a fixed 24-directive site after histories of 0-4 http loads (validate / start+stop / reload of a running site; valid, misspelt directive, syntax error, failing setup). non-trivial = parse: a repeated directive interleaved with another one or a parse error; text: a repeated directive and >= 2 names; exec: >= 2 calls; hist: >= 2 loads; site: starts and uses >= 3 directives; order: always; dirs: after >= 1 load",
 		Gen:    c09Gen,
 		Decode: func(raw json.RawMessage) (interface{}, error) { in := &c09In{}; return in, json.Unmarshal(raw, in) },
 		Run:    c09Run,
